@@ -78,6 +78,10 @@ CLAIMED = {
          "Props/C18.v: C18_time, C18_minmax_values, C18_rows (+ refutation of the pinned layout), C18_listing, C18_species, C18_rows_of. minuterie, menu (default, -m, -f) and marinate are run in-process on generated 2D/3D plotfiles (odd/even counts, with/without species, unknown names contained in one another or with regex metacharacters, negative/infinite/tiny times, infinite extrema); stdout is parsed back into names and (field, min, max) cells and compared with the generator's tables formatted by '{:.3}' and with the extracted model; the pickle is loaded, compared attribute by attribute and every box read through it.",
          "text formatting and pickle are Python's (checked, not modelled); the regex classification is a parameter supplied by the harness' transcription of the database; field names equal to a class key of the database are excluded; five defects repaired by fix: commits.",
          "DESIGN.md section 3 C18"),
+ 'C13': ("Coq proof (path algebra: every explicit write target lies under the output path for every spelling; suffix-built default outputs are siblings of the input, never inside it) + audited runs of every tool with input snapshots and exhaustive/sampled I/O fault injection",
+         "Props/C13.v: C13_explicit_outputs, C13_join_components, C13_default_outputs, C13_suffix_defaults (+ computed examples for combine / chk2plt / mandoline defaults). Every tool is run in-process from another working directory with inputs/outputs spelled relative, './', trailing '/', '//', absolute; an audit hook records every open-for-write / mkdir / rename / remove / rmtree; inputs are snapshotted (content, mtime, mode) before and after; default output locations are predicted by the extracted path model; failing invocations (unknown field, truncated binary file) must raise; an OSError is injected at sampled (quick) or all (thorough) write-class operations and write() calls: the tool must raise (or complete with the identical output when the library retried), inputs unchanged, writes confined to the output location.",
+         "the kernel's file system, symbolic links and '..' are outside the model; defaults of combine / chk2plt / mandoline are modelled and checked against the runs but proved only by computed examples; mandoline image output is not exercised (matplotlib); seven defects repaired by fix: commits.",
+         "DESIGN.md section 3 C13"),
 }
 PENDING_REASON = "check not built yet in this round (model and theorems planned in DESIGN.md section 3); not claimed until its check runs"
 
